@@ -84,7 +84,8 @@ JITTER = 0.1
 CONSUMER_RMAX = 1.0
 
 FAULT_KINDS = ["move", "move", "move", "kill", "kill", "readdress", "readdress", "bounce", "hide", "drop", "drop",
-               "silent", "refuse", "blackhole", "error", "topic_outage", "topic_outage", "kill_coord", "kill_coord", "full_refresh"]  # fmt: skip
+               "silent", "refuse", "blackhole", "error", "topic_outage", "topic_outage", "kill_coord", "kill_coord", "full_refresh",
+               "outage"]  # fmt: skip
 ACKS0_KINDS = ["kill_forever", "readdress", "readdress", "move_down", "drop"]
 
 
@@ -197,6 +198,12 @@ def _gen_fault(rng, at, t_last, nb, topics, acks0):
     if kind == "blackhole":
         return [{"at": at, "op": "mode", "broker": b, "mode": "blackhole", "reset": True, "connect_timeout": rng.choice([0.5, 1.0])},
                 {"at": back, "op": "mode", "broker": b, "mode": "accept"}]  # fmt: skip
+    if kind == "outage":
+        # whole-cluster outage: EVERY broker - the bootstrap address included - refuses connections and drops the
+        # established ones, until the faults stop (T_last: refusing brokers accept again).  A metadata reload that
+        # is attempted meanwhile fails ENTIRELY (every known broker times out, every bootstrap host refuses) when the
+        # outage is long enough; producing and consuming must still resume afterwards
+        return [{"at": at, "op": "mode", "broker": i, "mode": "refuse", "reset": True} for i in range(nb)]
     if kind == "error":
         return [{"at": at, "op": "error", "api": rng.choice(["Produce", "Fetch", "Metadata", "ListOffsets", "OffsetCommit", "OffsetFetch"]),
                  "code": rng.choice([3, 5, 6, 7]), "times": rng.randint(1, 2)}]  # fmt: skip
